@@ -9,7 +9,7 @@ GenInit == /\ kern = [s \in Slots |-> Dead]
            /\ wrap \in [Wrappers -> [m : WModels, store : {"mono"}]]
            /\ dm = [x \in Models \X QSets |-> <<"garbage">>]
            /\ dict = [r \in Requests |-> TRUE]
-           /\ ret = NoRet /\ nops = 0
+           /\ ret = NoRet /\ held = NoHeld /\ nops = 0
            /\ hist = <<>>
 GenNext ==
     \/ \E s \in Slots, m \in Models, q \in QSets : MakeKernel(s, m, q) /\ hist' = Append(hist, E("make", s, m, q, "", FALSE, "", ""))
